@@ -148,7 +148,8 @@ Unhandled(fam) ==
       [] fam = "cbident" -> never \cup {"CallKw", "Slice", "Subst", "Deriv", "Min", "Max", "Wild", "NaN", "MV"}
 \* (a generic map_algebraic_leaf the user adds also serves the stock leaf kinds a traversal has
 \* no handler of its own for)
-ViaGeneric(rec) == IF "map_algebraic_leaf" \in UserImpl(rec) THEN {"Wild", "FunctionSymbol", "NaN"} ELSE {}
+ViaGeneric(rec) == (IF "map_algebraic_leaf" \in UserImpl(rec) THEN {"Wild", "FunctionSymbol", "NaN"} ELSE {})
+                   \cup (IF "map_leaf" \in UserImpl(rec) THEN {"Wild"} ELSE {})
 AllHandled(rec, sub) ==
     /\ \A i \in {sub.id} \cup DescOf(tab, sub.id) : kinds[i] \notin (Unhandled(rec.cfg.fam) \ ViaGeneric(rec))
     /\ UnhandledUsers(rec, sub.id) = {}
